@@ -211,72 +211,95 @@ def r3_teardown_sequence(report, repo):
 
 
 def r4_stop_phase_executor(report, repo, rule='C03-R4'):
-  report.rule(rule, 'T-DOM/T-ORDER/T-PAIR: _stop_phase_executor: a non-forced '
-              'stop is dominated by a successful non-blocking acquire of the '
-              'teardown lock; reset_stop() precedes the release; release in '
-              'finally')
+  report.rule(rule, 'T-DTABLE/T-PAIR: _stop_phase_executor over {executor '
+              'exists, forced, teardown lock obtained}: nothing without an '
+              'executor; not forced and lock busy => return without stopping '
+              '(a running teardown is never cancelled by the first abort); '
+              'otherwise stop(timeout) then reset_stop(), inside a try whose '
+              'finally releases the lock iff it was taken; force defaults to '
+              'False')
   f = repo.func(TE, 'TestExecutor._stop_phase_executor')
+  LOCK = 'self._teardown_phases_lock'
+  a = f.node.args
+  names = [x.arg for x in a.args]
+  dflt = a.defaults[names.index('force') - (len(names) - len(a.defaults))] \
+      if 'force' in names and a.defaults else None
+  report.check(isinstance(dflt, ast.Constant) and dflt.value is False, rule,
+               f.qualname, 'force-default', f.node,
+               'force defaults to False (the first abort is not forced)',
+               'force does not default to False: a single abort cancels '
+               'running teardown phases')
+
+  def classify(expr, steps):
+    d = dotted(expr)
+    if d == 'force':
+      return 'force'
+    if d is not None and (d == 'phase_exec' or d == 'self._phase_exec'):
+      return 'exists'
+    if isinstance(expr, ast.Call) and call_name(expr) == LOCK + '.acquire':
+      if expr.args and isinstance(expr.args[0], ast.Constant) and \
+          expr.args[0].value is False:
+        return 'locked'
+    return None
+
+  def spec(v, p):
+    if p.end != 'exit':
+      return None
+    seq = []
+    for n, _ in p.steps:
+      for sub in n.subnodes():
+        if isinstance(sub, ast.Call):
+          cn = call_name(sub) or ''
+          if cn == LOCK + '.acquire':
+            nb = sub.args and isinstance(sub.args[0], ast.Constant) and \
+                sub.args[0].value is False
+            seq.append('try-acquire' if nb else 'BLOCKING-acquire')
+          elif cn == LOCK + '.release':
+            seq.append('release')
+          elif last_attr(sub) == 'stop' and cn.endswith('phase_exec.stop'):
+            seq.append('stop')
+          elif last_attr(sub) == 'reset_stop':
+            seq.append('reset')
+    if not v['exists']:
+      want = []
+    elif v['force']:
+      want = ['stop', 'reset']
+    elif v['locked']:
+      want = ['try-acquire', 'stop', 'reset', 'release']
+    else:
+      want = ['try-acquire']
+    if seq != want:
+      return ('row(exists=%s force=%s lock-obtained=%s): does %s, expected %s'
+              % (v['exists'], v['force'], v['locked'], seq, want))
+    return None
+
+  lib.decision_table(report, rule, f, ['exists', 'force', 'locked'], classify,
+                     spec)
   g = lib.cfg(f)
-  stops = [n for n, c in lib.nodes_with_call(g, attr='stop')]
-  report.expect_instances(rule, len(stops), 1, 'phase_exec.stop calls')
-
-  def is_acq(e):
-    return isinstance(e, ast.Call) and call_name(e) == \
-        'self._teardown_phases_lock.acquire' and e.args and isinstance(
-            e.args[0], ast.Constant) and e.args[0].value is False
-
-  acq_tests = lib.test_nodes(g, is_acq)
-  report.check(len(acq_tests) >= 1, rule, f.qualname, 'non-blocking acquire',
-               f.node, 'teardown lock is try-acquired without blocking '
-               '(acquire(False))',
-               'the teardown lock is not try-acquired non-blockingly: an abort '
-               'would either block behind or ignore a running teardown')
-
-  def ok_edge(s, l, d):
-    if s.kind != 'test':
-      return False
-    if l == 'T' and is_acq(s.ast):
-      return True
-    if l == 'T' and dotted(s.ast) == 'force':
-      return True
-    return False
-
-  for s in stops:
-    report.check(
-        g.dominated_by_edge(s, ok_edge), rule, f.qualname, 'stop-guard', s.ast,
-        'phase_exec.stop() reached only after acquiring the teardown lock (or '
-        'when forced)',
-        'phase_exec.stop() is reachable while the teardown lock is held by a '
-        'running teardown sequence: a single abort would cancel a teardown '
-        'phase')
-  resets = lib.nodes_with_call(g, attr='reset_stop')
-  rels = lib.nodes_with_call(g, name='self._teardown_phases_lock.release')
-  report.expect_instances(rule, len(rels), 1, 'teardown lock releases')
+  rels = lib.nodes_with_call(g, name=LOCK + '.release')
   for n, c in rels:
     fin = lib.in_handler_or_finally(c)
     report.check(fin is not None and fin[1] == 'finalbody', rule, f.qualname,
                  'release-in-finally', c,
-                 'teardown lock released in a finally block')
-  ok = bool(resets) and all(
-      not any(core.in_block(c, t, 'finalbody')
-              for t in [x for x in ast.walk(f.node) if isinstance(x, ast.Try)])
-      for n, c in resets)
-  # reset must come before release on the normal path: reset is in the try body
-  if resets and rels:
-    tr = lib.in_handler_or_finally(rels[0][1])
-    ok = ok and tr is not None and all(
-        core.in_block(c, tr[0], 'body') for _, c in resets) and all(
-            core.in_block(s.ast, tr[0], 'body') for s in stops)
-    if ok:
-      body = tr[0].body
-      ok = lib.stmt_index(body, stops[0].ast) < lib.stmt_index(
-          body, resets[0][1])
-  report.check(ok, rule, f.qualname, 'reset-before-release', f.node,
-               'reset_stop() follows stop() inside the try whose finally '
-               'releases the lock (stop flag cleared before teardown may run)',
-               'reset_stop() is not executed between stop() and the release of '
-               'the teardown lock: teardown phases would start with the stop '
-               'flag still set (cancelled) or the flag is cleared too early')
+                 'teardown lock released in a finally block (also when stop() '
+                 'raises)')
+    if fin is not None:
+      stops = lib.nodes_with_call(g, attr='stop')
+      resets = lib.nodes_with_call(g, attr='reset_stop')
+      ok = all(core.in_block(c2, fin[0], 'body') for _, c2 in stops + resets)
+      report.check(ok and bool(stops) and bool(resets), rule, f.qualname,
+                   'reset-before-release', c,
+                   'stop() and reset_stop() are in the try whose finally '
+                   'releases the lock (the stop flag is cleared before a '
+                   'teardown can start)',
+                   'reset_stop() is not executed inside the try protected by '
+                   'the release: teardown phases can start with the stop flag '
+                   'still set')
+  st = [c for _, c in lib.nodes_with_call(g, attr='stop')]
+  ok = len(st) == 1 and dotted(core.get_kw(st[0], 'timeout_s', 0)) == \
+      'CONF.cancel_timeout_s'
+  report.check(ok, rule, f.qualname, 'bounded-stop', f.node,
+               'stop() waits at most CONF.cancel_timeout_s')
 
 
 def r5_thread_proc(report, repo):
@@ -322,6 +345,8 @@ def r5_thread_proc(report, repo):
 def run(report, repo):
   group_table(report, repo, 'C03-R1')
   r3_teardown_sequence(report, repo)
+  from sa.rules import c02  # pylint: disable=g-import-not-at-top
+  c02.r3_sequences(report, repo, rule='C03-R3s')
   r4_stop_phase_executor(report, repo)
   r5_thread_proc(report, repo)
   from sa.rules import c01  # pylint: disable=g-import-not-at-top
